@@ -198,6 +198,7 @@ def run(ck: Check) -> None:
 
     # ---- pass 2: Coq case files ------------------------------------------------------------------
     sh = pyside.Shards(ck, "c13", per_shard=ck.n(9, 24))
+    deferred: List[Tuple[str, Dict[str, Any]]] = []
     stats: Dict[str, int] = {}
     samples: List[Any] = []
     distinct = set()
@@ -232,10 +233,10 @@ def run(ck: Check) -> None:
             if not stream.startswith(("error", "divzero")):
                 # a program of the valid stream: the specification accepts it (Coq confirms below
                 # that the model does, or the tie is reported)
-                ck.violation(f"the compiler {'rejected' if pe.get('parser_error') else 'crashed on'} a valid program of "
-                             f"constant declarations: {pe['cls']}: {pe.get('msg', '')[:160]}",
-                             {"program": prog, "files": texts, "origin": origin, "implementation_outcome": pe},
-                             found_input=True)
+                # registered after the value comparisons, so that the (minimal) corpus cases lead the report
+                deferred.append((f"the compiler {'rejected' if pe.get('parser_error') else 'crashed on'} a valid program of "
+                                 f"constant declarations: {pe['cls']}: {pe.get('msg', '')[:160]}",
+                                 {"program": prog, "files": texts, "origin": origin, "implementation_outcome": pe}))
                 exprs.append(f"(if file_err fs_{i} {last}%nat =? {code} then 0 else 1)")
                 metas.append((i, "outcome", None, None))
                 sh.add("\n".join(defs), exprs, metas)
@@ -501,12 +502,17 @@ def run(ck: Check) -> None:
             ck.violation(f"constant {nm}: the literal emitted into {lang} does not denote the declared value",
                          base, found_input=True, key=key)
 
+    for what, replay in deferred:
+        ck.violation(what, replay, found_input=True)
+
     cov = ck.coverage
     cov["evaluations"] = n_eval
     cov["distinct_nontrivial"] = len(distinct)
     cov["rule"] = ("programs from tools/c13_gen.py: an imported library file + a main file with 4-9 constants "
                    "(integer expression trees of depth <= 6 over decimal/hex literals of magnitudes 0..2^90 and "
-                   "references to earlier constants incl. alias.NAME across the import; printed either with Coq's "
+                   "references to earlier constants incl. alias.NAME across the import; in 60% of the programs the main file "
+                   "re-declares names of the imported file with other values after the imported file used its own, in 40% a "
+                   "third file is imported by the library under the same alias the main file uses for the library; printed either with Coq's "
                    "minimal parentheses or with redundant parentheses / leading zeros / mixed-case hex / irregular "
                    "blanks and tabs; booleans in all four spellings; strings over printable ASCII, tab, quote ', "
                    "control characters, UTF-8; lone references `const X = Y`), a message whose max_bytes option and "
